@@ -106,6 +106,11 @@ pub fn c18(seed: u64, n: usize) {
     for i in 0..sets {
         let mut f = [0.0; 6]; let mut t = [0.0; 6];
         let fam = match i % 8 {
+            0 if (i / 8) % 2 == 1 => {
+                // whole degrees in any order (wrap-around when from > to): half of these go through `from_degrees`
+                for k in 0..6 { f[k] = (r.below(361) as f64 - 180.0).to_radians(); t[k] = (r.below(361) as f64 - 180.0).to_radians(); if f[k] == t[k] { t[k] = (f[k].to_degrees().round() + 7.0).to_radians(); } }
+                "degree-lattice"
+            }
             0 => { for k in 0..6 { f[k] = r.range(-2.0 * PI, 2.0 * PI); t[k] = r.range(-2.0 * PI, 2.0 * PI); } "any" }
             1 => { for k in 0..6 { f[k] = r.range(0.5, 2.0 * PI); t[k] = r.range(0.0, f[k] - 0.01); } "wrap-both-positive" }
             2 => { for k in 0..6 { t[k] = r.range(-2.0 * PI, -0.5); f[k] = r.range(t[k] + 0.01, 0.0); } "wrap-both-negative" }
